@@ -1630,3 +1630,97 @@ def walk_pred(F, e):
                 for y in g.walk():
                     yield y
 
+
+
+# ----------------------------------------------------------------------------- sentinel answers used as keys
+def sentinel_accessors(funcs):
+    """Functions `std::string f(size_t index)` that answer an index out of range with the empty string (a literal "" returned under a condition
+    on the index): {callee key: Func}."""
+    out = {}
+    for f in funcs:
+        if len(f.params) != 1 or 'unsigned long' not in (f.params[0].get('t') or '') or 'basic_string' not in (f.j.get('ret') or ''):
+            continue
+        pd = f.params[0].get('d')
+        for r in f.walk():
+            if r.get('k') != 'Return' or not r.get('c'):
+                continue
+            v = r['c'][0]
+            while v.get('k') in ('Construct', 'Temp', 'Bind', 'Cast', 'Paren') and len(v.get('c', [])) == 1:
+                v = v['c'][0]
+            empty = (v.get('k') == 'Str' and v.get('v') in ('', '""')) or (v.get('k') == 'Construct' and not v.get('c') and 'basic_string' in (v.get('t') or ''))
+            if not empty:
+                continue
+            conds = [cn for cn, br, st in enclosing_conditions(f, r)]
+            if any(x.get('k') == 'Ref' and x.get('d') == pd for cn in conds for x in walk(cn)) or not conds:
+                out[f.key] = f
+    return out
+
+
+def _index_known_in_range(f, call, idx):
+    t = render(idx)
+    for cn, tr in (ff(f).conds_at(call) or []):
+        if cn.get('k') == 'Bin' and cn.get('op') in ('<', '>=', '>', '<=') and len(cn.get('c', [])) == 2:
+            l, r = render(cn['c'][0]), render(cn['c'][1])
+            if (l == t and ((cn['op'] == '<' and tr) or (cn['op'] == '>=' and not tr))) or (r == t and ((cn['op'] == '>' and tr) or (cn['op'] == '<=' and not tr))):
+                return True
+    if idx.get('k') == 'Ref' or (idx.get('k') in ('Cast',) and idx.get('c')):
+        d = next((x.get('d') for x in walk(idx) if x.get('k') == 'Ref'), None)
+        for L in f.ancestors(call):
+            if L.get('k') == 'For' and role(L, 'cond') is not None and any(v.get('k') == 'Var' and v.get('d') == d for v in walk(role(L, 'init') or {})):
+                c_ = role(L, 'cond')
+                return any(b.get('k') == 'Bin' and b.get('op') in ('<', '!=') and any(x.get('k') == 'Ref' and x.get('d') == d for x in walk(b['c'][0])) for b in walk(c_))
+    return False
+
+
+def sentinel_key_uses(f, sent_keys):
+    """Calls in f that hand the answer of a sentinel accessor (directly, or through a local defined by it) to another function as an argument
+    while the index is not known to be in range: [(user call, accessor call)]."""
+    def user_of(n):
+        ch, par = n, f.parent(n)
+        while par is not None and par.get('k') in ('Paren', 'Cast', 'Temp', 'Bind', 'Construct') and len(par.get('c', [])) == 1:
+            ch, par = par, f.parent(par)
+        return ch, par
+    out = []
+    for c in f.walk():
+        if c.get('k') != 'Call' or c.get('ck') not in sent_keys:
+            continue
+        idx = nth_arg(c, 0)
+        if idx is None or _index_known_in_range(f, c, idx):
+            continue
+        ch, par = user_of(c)
+        flows = []
+        if par is not None and par.get('k') == 'Call' and not par.get('opc') and not (par.get('mc') and par['c'][0] is ch):
+            flows.append(par)
+        if par is not None and par.get('k') == 'Var':
+            for r in f.walk():
+                if r.get('k') == 'Ref' and r.get('d') == par.get('d'):
+                    ch2, par2 = user_of(r)
+                    if par2 is not None and par2.get('k') == 'Call' and not par2.get('opc') and not (par2.get('mc') and par2['c'][0] is ch2):
+                        flows.append(par2)
+        for u in flows:
+            if (u.get('callee') or '').startswith('std::') and u.get('fn') not in ('find', 'count', 'at', 'erase', 'emplace', 'insert'):
+                continue
+            out.append((u, c))
+    return out
+
+
+def rule_sentinel_keys(F, rep, rid, floor=2):
+    from facts import AnalysisBroken, fixture_funcs
+    rep.rule(rid, 'an accessor that answers an index out of range with a sentinel (`std::string f(size_t)` returning "") never feeds a lookup: its answer is handed to another function only where the index is known to be in range '
+                  '(a dominating bound test or a bounded loop) - "" is itself an admissible key (Importer::addModel accepts it), so `library(key(index))` returns the model registered under "" for every out-of-range index instead of null')
+    fx = fixture_funcs('sentinel')
+    fk = set(sentinel_accessors(fx.values()))
+    got = {n: len(sentinel_key_uses(g, fk)) for n, g in fx.items()}
+    want = {'fixtureSentinelBad': 1, 'fixtureSentinelBadLocal': 1, 'fixtureSentinelGood': 0, 'fixtureSentinelLoop': 0, 'fixtureSentinelTested': 0}
+    if len(fk) != 1 or any(got.get(n) != v for n, v in want.items()):
+        raise AnalysisBroken('%s: the detector does not separate the fixture functions (sa/fixtures/src/sentinel.cpp): %s' % (rid, got))
+    lib = [g for g in F.funcs.values() if '/src/' in g.file]
+    sk = sentinel_accessors(lib)
+    if len(sk) < floor:
+        raise AnalysisBroken('%s: %d sentinel accessors found (%d confirmed: Importer::key, Units::unitId)' % (rid, len(sk), floor))
+    n = 0
+    for g in lib:
+        for u, c in sentinel_key_uses(g, set(sk)):
+            n += 1
+            rep.fail(rid, '%s|%s' % (g.short, render(u)[:50]), g.where(u), '%s hands `%s` (which is "" for an index out of range) to `%s` without knowing the index in range: the entry whose key really is "" is found' % (g.short, render(c)[:40], u.get('fn')))
+    rep.ok(rid, 'scan', None, 'answers of %d sentinel accessors (%s) are not used as keys outside a bound (fixture: 2 of 5 functions flagged, as expected)' % (len(sk), ', '.join(sorted(f_.short for f_ in sk.values()))))
